@@ -6,6 +6,7 @@ INVARIANTS
   C13_OnePlace
   C13_HandoffShape
   C13_FIFO
+  C13_ErrIffFails
   C13_QueuesInOrder
   C13_Accounted
   C13_NoDropStacked
